@@ -870,6 +870,10 @@ outer:
 				switch b := p.val(fr, x.X); b.k {
 				case pShaped:
 					fr.env[x] = b // &dense.AP and the like: still "that tensor"
+				case pAbs:
+					if b.s == "tensor" {
+						fr.env[x] = b // an abstract tensor the client named: its embedded parts are still that tensor
+					}
 				case pObj:
 					fr.env[x] = pval{k: pFieldAddr, i: b.i, j: int64(x.Field)}
 				case pNil:
@@ -1709,6 +1713,22 @@ func (p *pinterp) call(fn *ssa.Function, fr *pframe, x *ssa.Call, depth int) {
 	}
 	if recv != nil {
 		rv := p.val(fr, recv)
+		if rv.k == pAbs && rv.s == "tensor" && !cc.IsInvoke() && p.onInvoke != nil {
+			// a method of gorgonia's concrete tensor type called on an abstract tensor: the client answers as for
+			// the interface method
+			var margs []pval
+			for _, a := range cc.Args[1:] {
+				margs = append(margs, p.val(fr, a))
+			}
+			if res, ok := p.onInvoke(fn, x, rv, name, margs, fr.heap); ok {
+				if len(res) == 1 {
+					fr.env[x] = res[0]
+				} else if len(res) > 1 {
+					fr.tuples[x] = res
+				}
+			}
+			return
+		}
 		if rv.k == pShaped {
 			// a pending lazy transposition: only what reads the tensor logically is followed
 			if rv.m != 0 && fr.heap.lazyT[rv.m] {
